@@ -35,8 +35,14 @@ def rule_one_graph(ck, repo, R):
     ck.decide(len(calls) == 1 and [src(a) for a in calls[0].args] == ['self.not_special_connectivity', 'self.rings_count'], R, 'sssr:arguments',
               [src(a) for a in calls[0].args] if calls else None, 'sssr no longer searches not_special_connectivity for rings_count rings', file=ss.file, line=ss.lineno, func=ss.qualname)
     nsc = repo.func(f'{RINGS}:Rings.not_special_connectivity')
-    tests = [src(n.test) for n in ast.walk(nsc.node) if isinstance(n, ast.If)]
-    ck.decide(tests == ['b != 8'] and 'self._bonds.items()' in src(nsc.node), R, 'not_special_connectivity:filter', tests,
+    from .r_query import canon_atom as _canon
+    conds = [n.test for n in ast.walk(nsc.node) if isinstance(n, ast.If)] + [i for n in ast.walk(nsc.node) if isinstance(n, ast.comprehension) for i in n.ifs]
+    tests = [src(c) for c in conds]
+
+    def only_eight(c):
+        a, pol = _canon(c)
+        return a[0] == 'ne' and pol and '8' in a[1:] and len(a) == 3
+    ck.decide(len(conds) == 1 and only_eight(conds[0]) and 'self._bonds.items()' in src(nsc.node), R, 'not_special_connectivity:filter', tests,
               f'not_special_connectivity filters bonds by {tests}; only the coordinate order 8 may be ignored', file=nsc.file, line=nsc.lineno, func=nsc.qualname)
     adds = [n for n in ast.walk(nsc.node) if isinstance(n, ast.Assign) and isinstance(n.targets[0], ast.Subscript) and src(n.targets[0].value) == 'bonds']
     ck.decide(len(adds) == 1, R, 'not_special_connectivity:all-atoms', None, 'not_special_connectivity no longer creates an entry for every atom (isolated atoms count as components)', file=nsc.file, line=nsc.lineno)
@@ -151,9 +157,25 @@ def rule_heavy_atoms(ck, repo, R, P):
                   f'{q} writes the atom set at {atoms}: only hydrogen (im)explicification and salt stripping may change the heavy-atom multiset',
                   file=repo.func(ws and next(iter(ws))[0]).file if atoms else None, func=q)
     imp = repo.func('chython.algorithms.standardize.molecule:Standardize.implicify_hydrogens')
-    s = src(imp.node)
-    ck.decide('if atom == H and (atom.isotope is None or atom.isotope == 1)' in s, R, 'implicify:only-hydrogens', None,
-              'implicify_hydrogens no longer restricts removal candidates to (protium) hydrogen atoms', file=imp.file, line=imp.lineno)
+    # the loop that collects removal candidates admits an atom only under  atom == H and (isotope is None or isotope == 1),
+    # written as a positive `if` or as the negated early `continue` (compared as normalised DNF)
+    from .r_query import dnf as _dnf, simplify as _simplify
+    loops_ = [l for l in ast.walk(imp.node) if isinstance(l, ast.For) and isinstance(l.target, ast.Tuple) and len(l.target.elts) == 2 and
+              src(l.iter) in ('atoms.items()', 'self._atoms.items()', 'self.atoms()')]
+    ck.require(loops_, 'implicify_hydrogens: loop over the atoms not found')
+    lp_ = loops_[0]
+    av = src(lp_.target.elts[1])
+    want_ = _simplify(_dnf(ast.parse(f'{av} == H and ({av}.isotope is None or {av}.isotope == 1)', mode='eval').body))
+    first = lp_.body[0] if lp_.body else None
+    got_ = None
+    if isinstance(first, ast.If) and not first.orelse:
+        if len(first.body) == 1 and isinstance(first.body[0], ast.Continue):
+            got_ = _simplify(_dnf(first.test, False))   # `if not P: continue`
+        elif len(lp_.body) == 1:
+            got_ = _simplify(_dnf(first.test, True))    # `if P: ...`
+    ck.decide(got_ is not None and got_ == want_, R, 'implicify:only-hydrogens', None,
+              f'implicify_hydrogens no longer restricts removal candidates to (protium) hydrogen atoms (guard `{src(first.test) if isinstance(first, ast.If) else None}`)',
+              file=imp.file, line=lp_.lineno, func=imp.qualname)
     exp = repo.func('chython.algorithms.standardize.molecule:Standardize.explicify_hydrogens')
     news = [src(n.value) for n in ast.walk(exp.node) if isinstance(n, ast.Assign) and isinstance(n.targets[0], ast.Subscript) and src(n.targets[0].value) == 'atoms']
     ck.decide(news == ['_H(implicit_hydrogens=0)'], R, 'explicify:only-hydrogens', news, f'explicify_hydrogens adds atoms {news}', file=exp.file, line=exp.lineno)
@@ -197,6 +219,18 @@ def rule_tautomer_donor_guard(ck, repo, R):
 
 
 # ---- tentative writes: every path that does not commit rolls the write back ------------------------------------------------------------------
+def rollback_holds(repo, fq):
+    """True when the tentative-write analysis of fq finds no iteration exit with a net uncommitted charge change (used as the condition of the
+    fix_resonance exemption of the mutator protocol)"""
+    from .core import Check
+    ck = Check('C14')
+    try:
+        rule_tentative_rollback(ck, repo, '_probe', [fq])
+    except AnalysisError:
+        return False
+    return not ck.findings
+
+
 def rule_tentative_rollback(ck, repo, R, funcs):
     """
     loops that try a raw charge change (`X._charge -= 1`), test it, and either commit (record the atoms in the witness set whose non-emptiness
